@@ -376,9 +376,9 @@ Proof.
     eapply (IH _ _ (length J) b'); auto using inv_snoc, jrange_snoc, groundJoint_snoc. lia.
 Qed.
 
-Lemma mainloop_no_oof fuel J s : JRange B J -> Inv J s -> nb B <= fuel -> mainloop T B F fuel J s <> OutOfFuel.
+Lemma mainloop_no_oof fuel J s : 1 <= nb B -> JRange B J -> Inv J s -> nb B <= fuel -> mainloop T B F fuel J s <> OutOfFuel.
 Proof.
-  intros HR HI Hf. destruct fuel as [|f]. { unfold nb in *. pose proof F_big. lia. }
+  intros Hnb HR HI Hf. destruct fuel as [|f]; [lia|].
   simpl. destruct (growTree T B F J s) as [s1| |] eqn:Eg; try discriminate.
   2:{ exfalso. eapply growTree_no_oof; eauto. }
   assert (HI1 : Inv J s1) by (eapply growTree_inv; eauto).
